@@ -5,8 +5,8 @@
 use std::panic::{catch_unwind, AssertUnwindSafe};
 
 use crate::app::measurement::{
-    AnalogInput, AnalogOutputStatus, BinaryInput, BinaryOutputStatus, Counter, DoubleBit, DoubleBitBinaryInput, Flags,
-    FrozenCounter, OctetString, Time,
+    AnalogInput, AnalogOutputStatus, BinaryInput, BinaryOutputStatus, Counter, DoubleBit,
+    DoubleBitBinaryInput, Flags, FrozenCounter, OctetString, Time,
 };
 use crate::app::parse::options::ParseOptions;
 use crate::app::parse::parser::HeaderCollection;
@@ -71,7 +71,15 @@ pub fn info_str(info: UpdateInfo) -> String {
 /// binary output status, counter, frozen counter, analog, analog output status, octet string) with the
 /// configured static / event variation NUMBERS and the dead-band (counters: u32; analogs: the integer as
 /// f64; the other types have none).  `None` = the type has no such variation.
-pub fn add_typed_db(db: &mut Database, ty: u8, index: u16, class: u8, svar: u8, evar: u8, deadband: u32) -> Option<bool> {
+pub fn add_typed_db(
+    db: &mut Database,
+    ty: u8,
+    index: u16,
+    class: u8,
+    svar: u8,
+    evar: u8,
+    deadband: u32,
+) -> Option<bool> {
     let cls = class_of(class);
     macro_rules! var {
         ($n:expr, $($k:literal => $v:expr),+) => {
@@ -120,7 +128,16 @@ pub fn add_typed_db(db: &mut Database, ty: u8, index: u16, class: u8, svar: u8, 
 /// (`value & 3` as `DoubleBit::to_byte`), u32, or the integer carried as f64; `octets`: an octet string's
 /// content; time = `Synchronized(Timestamp::new(time))`.  `None` = no such type / the library refuses to
 /// construct the octet string.
-pub fn update_typed_db(db: &mut Database, ty: u8, index: u16, value: i64, octets: &[u8], flags: u8, time: u64, opts: u8) -> Option<UpdateInfo> {
+pub fn update_typed_db(
+    db: &mut Database,
+    ty: u8,
+    index: u16,
+    value: i64,
+    octets: &[u8],
+    flags: u8,
+    time: u64,
+    opts: u8,
+) -> Option<UpdateInfo> {
     let t = Time::Synchronized(Timestamp::new(time));
     let flags = Flags::new(flags);
     // options number: 0..2 = Detect / Force / Suppress, +3 = update_static false (0 = `detect_event()`)
@@ -129,7 +146,11 @@ pub fn update_typed_db(db: &mut Database, ty: u8, index: u16, value: i64, octets
         1 => EventMode::Force,
         _ => EventMode::Suppress,
     };
-    let opt = if opts % 6 == 0 { UpdateOptions::detect_event() } else { UpdateOptions::new(opts % 6 < 3, mode) };
+    let opt = if opts % 6 == 0 {
+        UpdateOptions::detect_event()
+    } else {
+        UpdateOptions::new(opts % 6 < 3, mode)
+    };
     let db2 = |v: i64| match v & 3 {
         0 => DoubleBit::Intermediate,
         1 => DoubleBit::DeterminedOff,
@@ -182,27 +203,52 @@ impl DbProbe {
 
     /// `Database::add` of type number `ty` with configured static / event variation numbers
     /// (`None` = a variation number the type does not have: nothing is done); dead-band 0
-    pub fn add_typed(&mut self, ty: u8, index: u16, class: u8, svar: u8, evar: u8, deadband: u32) -> Option<Result<bool, ()>> {
+    pub fn add_typed(
+        &mut self,
+        ty: u8,
+        index: u16,
+        class: u8,
+        svar: u8,
+        evar: u8,
+        deadband: u32,
+    ) -> Option<Result<bool, ()>> {
         let mut known = true;
         let r = guard(|| {
-            self.handle.transaction(|db| match add_typed_db(db, ty, index, class, svar, evar, deadband) {
-                Some(b) => b,
-                None => {
-                    known = false;
-                    false
+            self.handle.transaction(|db| {
+                match add_typed_db(db, ty, index, class, svar, evar, deadband) {
+                    Some(b) => b,
+                    None => {
+                        known = false;
+                        false
+                    }
                 }
             })
         });
-        if known { Some(r) } else { None }
+        if known {
+            Some(r)
+        } else {
+            None
+        }
     }
 
     /// `update2(.., UpdateOptions::detect_event())` of type number `ty` (see `update_typed_db`)
-    pub fn update_typed(&mut self, ty: u8, index: u16, value: i64, octets: &[u8], flags: u8, time: u64, opts: u8) -> Option<Result<String, ()>> {
+    pub fn update_typed(
+        &mut self,
+        ty: u8,
+        index: u16,
+        value: i64,
+        octets: &[u8],
+        flags: u8,
+        time: u64,
+        opts: u8,
+    ) -> Option<Result<String, ()>> {
         if ty > 7 || (ty == 7 && octets.len() > 255) {
             return None;
         }
         Some(guard(|| {
-            let info = self.handle.transaction(|db| update_typed_db(db, ty, index, value, octets, flags, time, opts).unwrap());
+            let info = self.handle.transaction(|db| {
+                update_typed_db(db, ty, index, value, octets, flags, time, opts).unwrap()
+            });
             info_str(info)
         }))
     }
@@ -212,7 +258,11 @@ impl DbProbe {
     /// `Ok(None)` = the parser rejected the octets (nothing selected); `Ok(Some(iin2))` otherwise.
     pub fn select(&mut self, object_headers: &[u8]) -> Result<Option<u8>, ()> {
         guard(|| {
-            match HeaderCollection::parse(ParseOptions::get_static(), FunctionCode::Read, object_headers) {
+            match HeaderCollection::parse(
+                ParseOptions::get_static(),
+                FunctionCode::Read,
+                object_headers,
+            ) {
                 Err(_) => None,
                 Ok(headers) => Some(self.handle.select(&headers).value),
             }
@@ -231,11 +281,19 @@ impl DbProbe {
     }
 
     /// `write_unsolicited(classes, cursor over cap octets)`: (octets, count)
-    pub fn write_unsolicited(&mut self, c1: bool, c2: bool, c3: bool, cap: usize) -> Result<(Vec<u8>, usize), ()> {
+    pub fn write_unsolicited(
+        &mut self,
+        c1: bool,
+        c2: bool,
+        c3: bool,
+        cap: usize,
+    ) -> Result<(Vec<u8>, usize), ()> {
         guard(|| {
             let mut buf = vec![0u8; cap];
             let mut cursor = WriteCursor::new(&mut buf);
-            let count = self.handle.write_unsolicited(EventClasses::new(c1, c2, c3), &mut cursor);
+            let count = self
+                .handle
+                .write_unsolicited(EventClasses::new(c1, c2, c3), &mut cursor);
             let n = cursor.position();
             (buf[..n].to_vec(), count)
         })
@@ -255,14 +313,23 @@ impl DbProbe {
                     std::task::Poll::Pending => panic!("clear_written_events did not complete"),
                 }
             }
-            let (pos, state) = app.end.last().copied().map(|(p, s)| (p, Some(s))).unwrap_or((0, None));
+            let (pos, state) = app
+                .end
+                .last()
+                .copied()
+                .map(|(p, s)| (p, Some(s)))
+                .unwrap_or((0, None));
             let state = state.expect("end_confirm not called");
             ClearResult {
                 begin_confirms: app.begin,
                 cleared: app.cleared.clone(),
                 end_confirms: app.end.len(),
                 cleared_before_end: pos,
-                classes: (state.classes.num_class_1, state.classes.num_class_2, state.classes.num_class_3),
+                classes: (
+                    state.classes.num_class_1,
+                    state.classes.num_class_2,
+                    state.classes.num_class_3,
+                ),
                 types: [
                     state.types.num_binary_input,
                     state.types.num_double_bit_binary_input,
